@@ -55,7 +55,7 @@ def run_translators(res):
     sys.path.insert(0, os.path.join(VERIF, "tools", "translate"))
     import importlib
     os.makedirs(os.path.join(COQ, "Gen"), exist_ok=True)
-    for modname in ("gen_tables", "gen_grammar", "gen_atn", "gen_walker", "gen_pylite"):
+    for modname in ("gen_tables", "gen_grammar", "gen_atn", "gen_walker", "gen_methods", "gen_pylite"):
         try:
             mod = importlib.import_module(modname)
         except ImportError:
